@@ -2650,3 +2650,13 @@ Proof.
     as [rt [payload [view [_ [_ [Ep [Bp [Hframe [Ev [V1 [V2 [V3 [V4 [V5 [V6 [V7 [V8 V9]]]]]]]]]]]]]]]]].
   exists rt, payload, view. repeat split; try assumption.
 Qed.
+
+(* the allocation branch: an admissible allocator answer is an address inside a configured pool — exactly the hypothesis
+   [find_pool addr pools = Some p] of the end-to-end theorems *)
+Lemma alloc_admissible_pool : forall addr pf, alloc_admissible addr pf = true ->
+  exists p n, find_pool addr (pf_pools pf) = Some p /\ In p (pf_pools pf) /\ pl_net p = Some n /\ net_contains n addr = true.
+Proof.
+  intros addr pf H. unfold alloc_admissible in H. destruct (find_pool addr (pf_pools pf)) as [p|] eqn:E; [|discriminate].
+  unfold find_pool in E. destruct (find_some _ _ E) as [Hin Hp]. destruct (pl_net p) as [n|] eqn:En; [|discriminate].
+  exists p, n. unfold find_pool. repeat split; assumption.
+Qed.
